@@ -138,7 +138,27 @@ def cascade(tier):
                             yield [b, a]
 
 
+def long_pairs(rng, tier):
+    """sizes no ordinary test reaches: digit runs of thousands of digits (compared by value, not converted), and
+    versions that tie on more than a thousand run pairs before they differ or end"""
+    out = []
+    for nd in (4299, 4300, 4301, 5000) + ((9000, 20000) if tier != 'quick' else ()):
+        big = ''.join(rng.choice('0123456789') for _ in range(nd - 1))
+        for lead in ('9', '1'):
+            x = lead + big
+            y = x[:-1] + ('8' if x[-1] != '8' else '7')
+            out += [['1.' + x, '1.' + y], ['1.' + x, '1.' + x], ['1.' + x, '1.0' + x], ['2-' + x, '2-' + y], [x + ':1', y + ':1'],
+                    ['1.' + x + 'a', '1.' + x + '~'], ['1.' + x[1:], '1.' + x]]
+    for nc in (400, 990, 1100, 1500) + ((3000,) if tier != 'quick' else ()):
+        for comp in ('.1', 'a1', '.0', '+12'):
+            x = '1' + comp * nc
+            out += [[x, x], [x, x + comp], [x, '1' + comp * (nc - 1) + comp[0] + '2'], [x + '~', x], ['1-' + x, '1-' + x + 'a'],
+                    [x + '-1', x + '-2']]
+    return out + [[b, a] for a, b in out]
+
+
 def streams(tier, rng):
+    yield {'name': 'long-runs-and-many-components', 'op': 'C01', 'cases': long_pairs(rng, tier)}
     L = 2 if tier == 'quick' else 3
     yield {'name': 'cascade-around-ties', 'op': 'C01', 'cases': cascade(tier), 'exhaustive': True}
     yield {'name': 'components-exhaustive-len<=%d' % L, 'op': 'C01s', 'cases': comp_pairs(L), 'exhaustive': True}
